@@ -63,7 +63,7 @@ def run(ctx):
         gens.append(("C06_t_roaring", dict(mode="bfs")))
         gens.append(("C06_t_tails", dict(mode="bfs")))
         gens.append(("C06_t_rest", dict(mode="bfs")))
-        gens.append(("C06_sim", dict(mode="simulate", num=10000, depth=12)))
+        gens.append(("C06_sim", dict(mode="simulate", num=7000, depth=12)))
     allb = os.path.join(ctx.scratch, "c06_all.ndjson")
     with open(allb, "w") as out:
         for cfg, kw in gens:
